@@ -90,11 +90,11 @@ fn plan(prop: &str) -> Vec<(Sim, usize, usize)> {
         "C05" => vec![(BEnc, 14_000, 800_000), (BDec, 12_000, 700_000), (AStore, 3000, 200_000)],
         "C06" => vec![(BEnc, 12_000, 600_000), (BDec, 12_000, 600_000), (BOneshot, 10_000, 500_000), (AStore, 3000, 200_000), (ACorner, 24, 600)],
         "C07" => vec![(BEnc, 14_000, 700_000), (BDec, 14_000, 700_000), (AStore, 3000, 200_000)],
-        "C08" => vec![(BEnc, 10_000, 500_000), (BDec, 10_000, 500_000), (ACorner, 16, 600)],
+        "C08" => vec![(BEnc, 10_000, 500_000), (BDec, 10_000, 500_000), (BOneshot, 4000, 200_000), (ACorner, 16, 600)],
         "C09" => vec![(BEnc, 14_000, 700_000), (BDec, 10_000, 500_000), (BOneshot, 6000, 300_000), (AStore, 4000, 300_000)],
         "C10" => vec![(BOneshot, 20_000, 1_000_000), (BEnc, 5000, 200_000), (BDec, 6000, 300_000), (AStore, 4000, 300_000)],
         "C11" => vec![(AStore, 8000, 500_000), (BDec, 12_000, 600_000)],
-        "C12" => vec![(BEnc, 12_000, 600_000), (BDec, 14_000, 700_000), (AStore, 3000, 200_000), (ACorner, 8, 300)],
+        "C12" => vec![(BEnc, 12_000, 600_000), (BDec, 14_000, 700_000), (AStore, 3000, 200_000), (ACorner, 24, 600)],
         "C14" => vec![(DCpu, 3000, 150_000), (AStore, 3000, 200_000)],
         "C17" => vec![(BEnc, 14_000, 700_000), (BDec, 14_000, 700_000)],
         _ => vec![],
